@@ -1,20 +1,37 @@
 #!/bin/bash
-# Applies every seeded change in turn to /repo, runs the quick check of its property, undoes it, records the outcome.
+# Applies every seeded change in turn to the repository, runs the quick check of its property, undoes it, records the outcome.
 # usage: tools/run_seeds.sh [ids...]   -> build/seed_results/<id>.txt
-cd /verif
+# The repository is /repo, or $XSM_REPO (a scratch copy: `vp run --with-repo -- bash -c 'XSM_REPO=$VP_RUN_REPO tools/run_seeds.sh'`),
+# so that a sweep over all seeds does not occupy /repo itself.
+cd "$(dirname "$0")/.."
+R=${XSM_REPO:-/repo}
+export XSM_REPO=$R
 mkdir -p build/seed_results
+[ -d coq/Gen ] && [ -f coq/Props/C01.vo ] || ./setup.sh > build/seed_results/_setup.log 2>&1
 ids="$@"
 [ -z "$ids" ] && ids=$(ls seeded)
 for id in $ids; do
   prop=${id%%-*}
-  if ! git -C /repo apply --check /verif/seeded/$id/patch.diff 2>/dev/null; then echo "$id does-not-apply" > build/seed_results/$id.txt; continue; fi
-  git -C /repo apply /verif/seeded/$id/patch.diff
-  flag=""   # always rebuild: tie T re-translates the source (coq/Gen) on every run
-  timeout 3600 ./check $prop --tier quick $flag > build/seed_results/$id.log 2>&1
+  if ! git -C $R apply --check $(pwd)/seeded/$id/patch.diff 2>/dev/null; then echo "$id does-not-apply" | tee build/seed_results/$id.txt; continue; fi
+  git -C $R apply $(pwd)/seeded/$id/patch.diff
+  timeout 3600 ./check $prop --tier quick > build/seed_results/$id.log 2>&1    # always rebuilds: tie T re-translates the source
   rc=$?
-  git -C /repo checkout -- .
-  echo "$id rc=$rc $(grep -c '^VIOLATION' build/seed_results/$id.log) violations; $(grep '^VIOLATION' build/seed_results/$id.log | head -1 | cut -c1-120)" > build/seed_results/$id.txt
-  cat build/seed_results/$id.txt
+  git -C $R checkout -- .
+  what=$(/venv/bin/python - "$id" <<'PY'
+import json, re, sys, os
+log = open(f"build/seed_results/{sys.argv[1]}.log").read()
+v = re.findall(r"^VIOLATION property=\S+ replay=(\S+)(.*)$", log, re.M)
+concrete = [p for p, tail in v if "no-failing-input-found" not in tail]
+kinds = []
+for p in (concrete or [p for p, _ in v])[:1]:
+    try:
+        d = json.load(open(p)); kinds.append(d.get("kind", "?") + ": " + str(d.get("what") or d.get("broken") or "")[:160])
+    except Exception as e:
+        kinds.append("unreadable replay")
+print(("concrete-failing-input" if concrete else ("tie-broken-no-failing-input" if v else "NOT-DETECTED")), "|", "; ".join(kinds))
+PY
+)
+  echo "$id rc=$rc $(grep -c '^VIOLATION' build/seed_results/$id.log) violations; $what" | tee build/seed_results/$id.txt
 done
 ./setup.sh > /dev/null 2>&1
 echo ALL-DONE
